@@ -20,6 +20,7 @@
 -/
 import FcProofs.Props.C02
 import FcProofs.Lemmas.ResidRigid
+import FcProofs.Lemmas.ResidNoise
 namespace Fc
 open Fc.C02 Fc.C02.Spec
 
@@ -129,5 +130,36 @@ theorem C02_no_false_fail_distinguishable_pair {asS asR : List Int → List Nat}
     ladderPasses (ladder asS asR h {} (relabelF ρ1 κ1 f) (relabelF ρ2 κ2 f)) = true := by
   obtain ⟨hy, hd, hsl⟩ := Resid.storedHyp_sound hs
   exact C02_no_false_fail_relabelled_pair hS hR (baseHyp_sound hb) hy hsl isArgsort_stable hd hρ1 hρ2 hκ1 hκ2
+
+/-! ### noisy relabelling: invariance of the JOINT cluster keys (ingredients of the noisy canonicity) -/
+
+/-- **C02 (noisy relabelling, points).**  `m₂` stores `m₁` in the point order `ρ` with every coordinate
+    moved by at most `δ ≤ A`; the coordinate values of BOTH meshes in column `j` satisfy the dichotomy
+    (`Spec.jointSep`).  Then point `i` of `m₂` and its original `ρ[i]` in `m₁` have the same cluster key
+    relative to the joint value set. -/
+theorem C02_noisy_point_keys {m1 m2 : Mesh} {ρ : List Nat} {δ : Nat} (h : Resid.NoisyRelabeled m1 m2 ρ δ)
+    {A B : Nat} (hAB : 2 * A ≤ B) (hδ : δ ≤ A) {j : Nat} (hj : j < m1.dim)
+    (hsep : sepCol A B ((pitems m1 ++ pitems m2).map (pkey j)) = true) {i : Nat} (hi : i < m1.points.length) :
+    clusterKey A ((pitems m1 ++ pitems m2).map (pkey j)) ((m2.points.getD i []).getD j 0) =
+      clusterKey A ((pitems m1 ++ pitems m2).map (pkey j)) ((m1.points.getD (ρ.getD i 0) []).getD j 0) :=
+  h.point_keys hAB hδ hj hsep hi
+
+/-- **C02 (noisy relabelling, cell centres).**  A cell `r` of `m₁` and the same cell `r.map ρ⁻¹` of the
+    noisy copy `m₂` have centres with the same cluster keys relative to ANY joint list `C` of candidate
+    centres that contains both and satisfies the dichotomy — from `C02_centre_error_bound` and the slack
+    `δ + (2k+4)·M·2^-53 + 1 unit ≤ B`.  (With `C02_noisy_point_keys` this is what a joint-key version of
+    `hrel` needs; `hrel` as stated in `C02_canonical_points_partial` — own keys on each side — is false for
+    genuinely noisy pairs: Witness/C02_Resid.lean.) -/
+theorem C02_noisy_centre_keys {m1 m2 : Mesh} {ρ : List Nat} {δ : Nat} (h : Resid.NoisyRelabeled m1 m2 ρ δ)
+    {A B M : Nat} (hAB : 2 * A ≤ B) {r : List Nat} (hr : r ∈ allRows m1)
+    (hslack : Resid.CentreSlack δ B M r.length)
+    (hM1 : ∀ q, q < m1.points.length → ∀ j, j < m1.dim → ((m1.points.getD q []).getD j 0).natAbs ≤ M)
+    (hM2 : ∀ q, q < m1.points.length → ∀ j, j < m1.dim → ((m2.points.getD q []).getD j 0).natAbs ≤ M)
+    {z z' : List Int} (hz : cellCentre m1.points r = some z)
+    (hz' : cellCentre m2.points (r.map fun p => ρ.idxOf p) = some z')
+    {C : List (List Int)} (hzC : z ∈ C) (hzC' : z' ∈ C) {j : Nat} (hj : j < m1.dim)
+    (hsep : sepCol A B (C.map (rowKey j)) = true) :
+    clusterKey A (C.map (rowKey j)) (rowKey j z) = clusterKey A (C.map (rowKey j)) (rowKey j z') :=
+  h.centre_keys hAB hr hslack hM1 hM2 hz hz' hzC hzC' hj hsep
 
 end Fc
